@@ -73,7 +73,8 @@ def special_values(tn, tree, rng, tier):
     elif tn == "SQ1":
         n = len(tree[2])
         pats = [[False] * n, [True] * n] + [[j == i for j in range(n)] for i in range(n)] + [[j >= i for j in range(n)] for i in range(1, n)]
-        out = [("S", [("!", bool((i + k) % 2)) if p else ("_",) for k, p in enumerate(pat)]) for i, pat in enumerate(pats)]
+        out = [("S", [(("!", bool((i + k) % 2)) if p else ("_",)) if tree[2][k][0] == "?" else bool((i + k) % 2)
+                      for k, p in enumerate(pat)]) for i, pat in enumerate(pats)]
     else:
         out = [value(tree, rng) for _ in range(12)]
     return out
